@@ -243,7 +243,7 @@ def shards(tier, seed):
             out += _split(om, kinds, 1, 16, True)
     # seed extension: one more triple at bound 1
     extra = [('raise', 'getq', '404'), ('gen', 'crash', 'form'), ('upload', 'wild', 'getq'), ('404', '404', 'crash')][seed % 4]
-    out += _split(om, extra, 1, 8, False)
+    out = _split(om, extra, 1, 24, False) + out      # three threads: the longest shards go first
     return out
 
 
